@@ -218,14 +218,7 @@ def spec_needed(b):
 
 def run(ctx):
     thorough = ctx.tier == "thorough" or drifted(ctx)
-    ctx.rule = ("valid headers = random message type, the fields it requires plus a random subset of the others with valid values, "
-                "in random order, flags cycling through 0..255 in both byte orders, encoded by the extracted specification; "
-                "+ unknown fields (codes 10..255, values of generated signatures up to depth 3 incl. nested variants up to the "
-                "nesting limit) inserted at every position; + every single-fault class: endianness byte, version, type 0 and 5..255, "
-                "serial 0, duplicated field, missing required field, wrong variant type for a known code, invalid name/path/signature "
-                "text, zero reply serial, code 0, invalid value inside an unknown field, non-zero padding between fields and before "
-                "the body, field array length +-k, truncation, body length mismatch; + random bytes. A case is non-trivial when the "
-                "input is at least 16 bytes long; distinct = distinct byte strings")
+    ctx.rule = "(filled in at the end of the run with the numbers of this run)"
     ctx.trusted = ["Coq 8.16.1 kernel (coqc), no native_compute", "extraction with ExtrOcamlBasic only, ocamlfind ocamlopt 4.13.1",
                    "ocaml/c05/driver.ml and harness/src/bin/c05.rs (I/O wrappers), the generators in checks/c06.py",
                    "Wire/SpecEnc.v, Msg/HeaderSpec.v, Names/Spec.v: my reading of the D-Bus specification"]
@@ -296,6 +289,30 @@ def run(ctx):
             cases.append(("fault:type", Hdr(h.be, r.choice([0, 5, 6, 255, r.randrange(5, 256)]), h.flags, h.blen, h.serial, f), False))
         elif k == 9:
             cases.append(("fault:serial-0", Hdr(h.be, h.typ, h.flags, h.blen, 0, f), False))
+    # wrong variant type although the value's TEXT / NUMBER is valid for the field, for every code: only the type is at fault
+    def retyped(code, val):
+        """fields with code `code` carrying the valid value `val` under every wrong type that can hold it"""
+        if code == 1:
+            return [Field(1, "s", ["s", hx(val)]), Field(1, "v", ["v", "o", "o", hx(val)]), Field(1, "v", ["v", "s", "s", hx(val)])]
+        if code in (2, 4, 6, 7):
+            return [Field(code, "v", ["v", "s", "s", hx(val)]), Field(code, "(s)", ["r", "1", "s", hx(val)]), Field(code, "as", ["a", "s", "1", "s", hx(val)])]
+        if code == 3:          # a member name can also be a valid signature ("s", "as", "u", ..) and then fits type g
+            return [Field(3, "g", ["g", hx(r.choice(["s", "as", "u", "ii", "v"]))]), Field(3, "v", ["v", "s", "s", hx(val)])]
+        if code == 8:
+            return [Field(8, "s", ["s", hx(val)]), Field(8, "v", ["v", "g", "g", hx(val)])]
+        v = val if val else 1
+        return [Field(code, "i", ["i", str(v % (1 << 31))]), Field(code, "h", ["h", str(v)]), Field(code, "t", ["t", str(v)]),
+                Field(code, "q", ["q", str(v % 65536)]), Field(code, "v", ["v", "u", "u", str(v)])]
+    for idx in range(nvalid // 2):
+        h = gen_header(r, idx)
+        vn = gen_valid_names(r)
+        code = 1 + idx % 9
+        val = {1: vn["path"], 2: vn["iface"], 3: vn["member"], 4: vn["err"], 5: r.choice(SERIALS), 6: vn["dest"], 7: vn["sender"],
+               8: r.choice(["u", "a{sv}", "s"]), 9: r.choice([1, 2, 7])}[code]
+        for wf in retyped(code, val):
+            f = [x for x in h.fields if x.code != code]
+            f.insert(r.randrange(len(f) + 1), wf)
+            cases.append(("fault:wrong-type-valid-text:%d" % code, Hdr(h.be, h.typ, h.flags, h.blen, h.serial, f), False))
     elines = [h.e_line() for _, h, _ in cases]
     eout = run_sharded(drv, elines, "driver")
 
@@ -352,6 +369,42 @@ def run(ctx):
                 inputs.append((mk, mb, 0, None, None))
             if len(h.fields) >= 2 and len(prefix_req) < (400 if thorough else 80):
                 prefix_req.append((msg, h))
+    # a field whose variant signature holds 0 or 2+ complete types, the bytes after it being a valid encoding of the FIRST
+    # type: the last field of a valid header is rebuilt by hand behind the specification's encoding of the other fields
+    def field_bytes(pos, code, sig, first_sig, val, be):
+        """pos = message offset where the previous field ended; value encoded for the type `first_sig` (o s g u)"""
+        out = bytes(pad8(pos)) + bytes([code, len(sig)]) + sig.encode() + b"\0"
+        at = pos + len(out)
+        if first_sig in ("s", "o"):
+            t = val.encode()
+            out += bytes((-at) % 4) + struct.pack(">I" if be else "<I", len(t)) + t + b"\0"
+        elif first_sig == "g":
+            t = val.encode()
+            out += bytes([len(t)]) + t + b"\0"
+        else:
+            out += bytes((-at) % 4) + struct.pack(">I" if be else "<I", val)
+        return out
+    slines, smeta = [], []
+    for msg, h in prefix_req:
+        slines.append(h.e_line(len(h.fields) - 1))
+        smeta.append((msg, h))
+    for (msg, h), eo in zip(smeta, run_sharded(drv, slines, "driver")):
+        E, _ = parse_E(eo)
+        if E is None:
+            continue
+        last = h.fields[-1]
+        u32 = lambda n: struct.pack(">I" if h.be else "<I", n)
+
+        def rebuilt(sig):
+            fb = field_bytes(len(E), last.code, sig, last.sig, last.known_val, h.be)
+            hd = E[:12] + u32(len(E) - 16 + len(fb)) + E[16:] + fb
+            return hd + bytes(pad8(len(hd))) + msg[len(msg) - h.blen:] if h.blen else hd + bytes(pad8(len(hd)))
+        if rebuilt(last.sig) != msg:
+            ctx.tie_broken("generator: the hand-built last field differs from the specification's encoding", "header: %s" % h.e_line()[:400])
+            continue
+        for sig in (last.sig + "u", last.sig + last.sig, last.sig + "s", last.sig + "y", ""):
+            inputs.append(("fault:signature-%s-types" % ("no" if sig == "" else "two"), rebuilt(sig), 0, None, False))
+
     # padding between two fields made non-zero: the end of field k is the length of the encoding of the first k fields
     plines, pmeta = [], []
     for msg, h in prefix_req:
@@ -441,6 +494,16 @@ def run(ctx):
             big = struct.pack(">I" if be else "<I", r2.choice([(1 << 26), (1 << 26) + 1, (1 << 27) - 100, 1 << 27, U32 - 1]))
             b = b[:4] + big + b[8:] if r2.random() < 0.5 else b[:12] + big + b[16:]
         nl.append("n " + hx(b))
+    # the two limits exactly: needed in {2^27-8, 2^27, 2^27+8} and the field array length around 2^26
+    for be in (False, True):
+        u = lambda n: struct.pack(">I" if be else "<I", n)
+        for hfl in (0, 8, 100, (1 << 26) - 8, (1 << 26) - 1, 1 << 26):
+            for target in ((1 << 27) - 8, 1 << 27, (1 << 27) + 8, (1 << 27) + 1, (1 << 27) - 1):
+                blen = target - 16 - hfl - pad8(16 + hfl)
+                nl.append("n " + hx((b"B" if be else b"l") + bytes([r2.choice([1, 2, 3, 4]), 0, 1]) + u(blen) + u(1) + u(hfl)))
+        for hfl in ((1 << 26) - 8, (1 << 26) - 1, 1 << 26, (1 << 26) + 1, (1 << 26) + 8, 1 << 27):
+            for blen in (0, 8, 1000):
+                nl.append("n " + hx((b"B" if be else b"l") + bytes([1, 0, 1]) + u(blen) + u(7) + u(hfl)))
     ni = run_sharded(exe, nl, "harness", per=60)
     nm = run_sharded(drv, nl, "driver")
     for l, oi, om in zip(nl, ni, nm):
@@ -458,6 +521,46 @@ def run(ctx):
             ctx.disagreements_checked += 1
             ctx.tie_broken("correspondence: bytes_needed model differs from the implementation", "bytes: %s impl %s model %s" % (hx(b)[:200], oi, om))
     ctx.count("corpus", ncorpus)
+
+    # ---------------- 3b. RecvConn::get_next_message on a real connection: the bytes are written to the peer end (which then
+    # stops writing); expected = the specification model on the first bytes_needed bytes (too few bytes: an error)
+    gpool = [x for x in inputs if len(x[1]) <= 4096]
+    gsel = r2.sample(gpool, min(len(gpool), 5000 if thorough else 1000))
+    gl = ["g " + hx(x[1]) for x in gsel]
+    gi = run_sharded(exe, gl, "harness", per=60)
+    gn = run_sharded(drv, ["n " + hx(x[1]) for x in gsel], "driver")
+    cut = []
+    for x, on in zip(gsel, gn):
+        b = x[1]
+        need = int(on[2:]) if on.startswith("N:") and on[2:].isdigit() else None
+        cut.append(b[:need] if need is not None and 16 <= need <= len(b) and len(b) >= 16 else None)
+    gd = run_sharded(drv, ["d %s 0" % hx(c) if c is not None else "?" for c in cut], "driver")
+    for x, l, oi, c, od in zip(gsel, gl, gi, cut, gd):
+        ctx.case(l, nontrivial=len(x[1]) >= 16)
+        exp = parse_decoded(od[2:]) if c is not None and od.startswith("D:") else {"ok": False}
+        if c is not None and not od.startswith("D:"):
+            ctx.tie_broken("extracted decoder model failed", "bytes: %s model: %s" % (hx(c)[:400], od[:200]))
+            continue
+        if not oi.startswith("G:"):
+            ctx.disagreements_checked += 1
+            ctx.violation("RecvConn::get_next_message panicked / crashed", {"bytes": hx(x[1]), "kind": x[0], "impl": oi[:300]})
+            continue
+        got = parse_decoded(oi[2:])
+        ok_exp = exp["ok"] and exp.get("N", "").startswith("ok")
+        ctx.count("get_next_message:" + ("accept" if got["ok"] else "reject"))
+        bad = None
+        if got["ok"] != ok_exp:
+            bad = "get_next_message %s a message the specification model %s" % ("accepts" if got["ok"] else "rejects", "rejects" if got["ok"] else "accepts")
+        elif got["ok"]:
+            for k in ("t", "f", "rs", "i", "d", "sn", "m", "p", "e", "g", "fd", "dser"):
+                if got.get(k) != exp.get(k):
+                    bad = "get_next_message: header field %s is %s, the bytes say %s" % (k, str(got.get(k))[:60], str(exp.get(k))[:60])
+                    break
+            if bad is None and got["N"].split(":")[:4] != exp["N"].split(":")[:4]:
+                bad = "get_next_message: body / signature / descriptors differ from the bytes"
+        if bad:
+            ctx.disagreements_checked += 1
+            ctx.violation(bad, {"bytes": hx(x[1]), "nfds": 0, "kind": x[0], "impl": oi[:1200], "spec_model": od[:1200], "via": "get_next_message"})
 
     # ---------------- 4. the 64 MiB limit of the field array itself (only the implementation: the byte strings are too
     # large for the extracted model; the verdict is the specification's array limit, ValidHeader via encodable)
@@ -488,6 +591,29 @@ def run(ctx):
             ctx.violation("a header whose field array is %d bytes long (limit 2^26) is %s" % (hfl, "accepted" if ok else "rejected"),
                           {"big_hfl": hfl, "impl": o[0][:200]})
     ctx.exhaustive = False
+    hg = ctx.histogram
+    tot = lambda pre: sum(v for k, v in hg.items() if k.startswith(pre))
+    ctx.rule = (
+        "this run (%s sizes): %d valid headers = random message type, the fields it requires plus a random subset of the others with "
+        "valid values in random order, flags cycling through 0..255 in both byte orders, ENCODED BY THE EXTRACTED SPECIFICATION; "
+        "%d headers with an unknown field (codes 10..255, values of generated signatures up to depth 3): at EVERY position for every 8th "
+        "valid header, at one random position for the others; %d headers with a variant chain around the nesting limit; specification-level "
+        "faults, one class per valid header in rotation (%d: duplicate, missing required, wrong type, bad text, reply serial 0, code 0, type, "
+        "serial 0, invalid value inside an unknown field) plus %d wrong-type faults whose value is VALID for the field (every code 1..9, "
+        "every type that can hold the value); byte-level faults on valid headers (%d; 4 of the 13 classes per header in the quick sizes, "
+        "all in the thorough sizes: endianness, version, type byte, serial bytes, padding before the body, field array length +-k and "
+        "huge, truncation, body length, trailing bytes, one random byte) plus %d non-zero paddings between fields and %d variant "
+        "signatures with zero or two complete types; %d random byte strings; %d inputs through RecvConn::get_next_message on a real "
+        "connection; %d bytes_needed observations on a real RecvConn incl. the exact 2^26 / 2^27 limits; 2 headers with a 64 MiB field "
+        "array. A case is non-trivial when the input is at least 16 bytes long; distinct = distinct byte strings / lines" % (
+            "thorough" if thorough else "quick", hg.get("valid", 0), tot("unknown@"), hg.get("unknown-depth", 0),
+            sum(hg.get(k, 0) for k in ("fault:duplicate", "fault:missing-required", "fault:wrong-type", "fault:bad-text", "fault:reply-serial-0",
+                                       "fault:code-0", "fault:type", "fault:serial-0", "unknown-maybe-bad")),
+            tot("fault:wrong-type-valid-text"),
+            sum(v for k, v in hg.items() if k.startswith("fault:") and k.split(":")[1].split("+")[0].split("-")[0] in
+                ("endianness", "version", "type", "serial", "padding", "hfl", "truncated", "body", "random") and k not in
+                ("fault:type", "fault:serial-0", "fault:padding-between-fields")) + hg.get("extra-trailing-bytes", 0),
+            hg.get("fault:padding-between-fields", 0), tot("fault:signature-"), hg.get("random", 0), tot("get_next_message:"), tot("needed:")))
 
 
 def replay(ctx, body):
@@ -505,6 +631,20 @@ def replay(ctx, body):
             print("REPRODUCED: bytes_needed differs from the frame formula")
             return 1
         print("not reproduced")
+        return 0
+    if data.get("via") == "get_next_message":
+        b = bytes.fromhex(data["bytes"]) if data["bytes"] != "-" else b""
+        oi = run_proc(exe, ["g " + hx(b)])[1]
+        on = run_proc(drv, ["n " + hx(b)])[1][0]
+        need = int(on[2:]) if on[2:].isdigit() else None
+        od = run_proc(drv, ["d %s 0" % hx(b[:need])])[1][0] if need is not None and 16 <= need <= len(b) else "D:err"
+        print("bytes:", hx(b)[:400], "\nimpl :", (oi or ["<crash>"])[0][:800], "\nspec :", od[:800])
+        got, exp = parse_decoded(oi[0][2:]) if oi and oi[0].startswith("G:") else None, parse_decoded(od[2:])
+        if got is None or got["ok"] != (exp["ok"] and exp.get("N", "").startswith("ok")) or (
+                got["ok"] and any(got.get(k) != exp.get(k) for k in ("t", "f", "rs", "i", "d", "sn", "m", "p", "e", "g", "fd", "dser"))):
+            print("REPRODUCED: %s" % body.get("what"))
+            return 1
+        print("not reproduced (get_next_message agrees with the specification on this input)")
         return 0
     l = "d %s %d" % (data["bytes"], data.get("nfds", 0))
     oi = run_proc(exe, [l])[1]
